@@ -319,6 +319,13 @@ def rule_r3_r4(ctx, rep):
                             dom.mark_test(n, if_false=["DET"])
                         elif isinstance(n.ops[0], ast.Is):
                             dom.mark_test(n, if_true=["DET"])
+                    elif isinstance(n.left, ast.Name) and ctx.world.types(fi).type_of(n.left) == T_NODE:
+                        # `if parent is not None:` on something that is a node for certain (a parameter, a loop child): the other
+                        # outcome does not happen, so nothing has to hold on it
+                        if isinstance(n.ops[0], ast.IsNot):
+                            dom.mark_test(n, if_false=["DET"])
+                        elif isinstance(n.ops[0], ast.Is):
+                            dom.mark_test(n, if_true=["DET"])
             dom.probe(d)
             run_marks(ctx, fi, dom)
             must = must_at(dom, d)
@@ -485,7 +492,7 @@ def run(ctx, rep):
         "_id and the registry written only by their owners (effect analysis), every discard in prune / expand / replace_child "
         "paired on all paths with the unregistration of the same node (children included), every unregistration preceded by the "
         "detachment of that node or the no-parent outcome, and delete_node_instance removes exactly its key plus the subtree")
-    rep.rules_run = ["R1", "R2", "R3", "R4", "R5", "R6", "R7"]
+    rep.rules_run = ["R1", "R2", "R3", "R4", "R5", "R6", "R7", "R8"]
     rep.assumptions += ["NOT decided: uuid1 uniqueness", "copy() registration is C12-R3"]
     only = getattr(rep, "only", None)
     if only in (None, "R1", "R2"):
@@ -498,3 +505,6 @@ def run(ctx, rep):
         rule_r6(ctx, rep)
     if only in (None, "R7"):
         rule_r7(ctx, rep)
+    if only in (None, "R8"):
+        from .c14_worlds import rule_r8
+        rule_r8(ctx, rep)
